@@ -57,7 +57,8 @@ def run(ctx):
                      'distinct = distinct (rule, function, construct)')
     ctx.trusted = ['numpy primitives (sum/max/logsumexp/moveaxis/broadcast_to/where) behave as documented',
                    'Factor.__init__ precondition: values is laid out by domain (asserted at run time)']
-    methods = repo.methods(FACTOR, 'Factor')
+    from ..normalise import normalised, is_established
+    methods = {n: normalised(repo, f) for n, f in repo.methods(FACTOR, 'Factor').items()}
     for need in ['__init__', 'expand', 'transpose', 'project', 'sum', 'logsumexp', 'max', 'condition',
                  'copy', 'exp', 'log'] + BINARY:
         if need not in methods:
@@ -84,7 +85,13 @@ def run(ctx):
             ty.env0.pop('self', None)
             check_init(ctx, fi, ty)
             continue
-        rets = ty.analyse()
+        try:
+            rets = ty.analyse()
+        except AnalysisError as e:
+            if is_established(FACTOR, fi.qualname):
+                raise
+            ctx.note('new helper %s could not be typed on its own (%s); it is typed where it is inlined' % (fi.qualname, e))
+            continue
         n_construct += sum(1 for o in ctx.obligations if o.rule == 'construct' and o.function == fi.qualname)
         # ---- operand use ---------------------------------------------------------
         if name in BINARY:
@@ -186,7 +193,7 @@ def check_out_callsites(ctx):
 
 
 def check_axes_primitive(ctx):
-    fi = ctx.repo.func(DOMAIN, 'Domain.axes')
+    fi = ctx.repo.nfunc(DOMAIN, 'Domain.axes')
     rets = [s for s in ast.walk(fi.node) if isinstance(s, ast.Return)]
     if len(rets) != 1 or len(fi.params) != 2:
         raise AnalysisError('Domain.axes: unrecognised form')
@@ -214,7 +221,7 @@ def check_axes_primitive(ctx):
 
 def check_clique_vector(ctx):
     repo = ctx.repo
-    methods = repo.methods(CV, 'CliqueVector')
+    methods = repo.nmethods(CV, 'CliqueVector')
     for need in ('__add__', '__mul__', 'combine', 'dot', 'exp', 'log'):
         if need not in methods:
             raise AnalysisError('anchor vanished: CliqueVector.%s' % need)
